@@ -110,6 +110,44 @@ func emissionsG(g *Gate, s *Summary, resultIdx int) []Emission {
 			out = append(out, Emission{Call: em.Call, Elems: em.Elems, RC: em.RC})
 		}
 	}
+	// results delivered through a pointer parameter: appends stored into a slice field of the
+	// struct a parameter points to
+	params := map[*E]bool{}
+	for _, p := range g.ParamExprs(s.Fn) {
+		if p != nil && p.Typ != nil {
+			if _, isPtr := p.Typ.Underlying().(*types.Pointer); isPtr {
+				params[p] = true
+			}
+		}
+	}
+	if resultIdx == 0 && len(params) > 0 {
+		for _, ef := range s.Effects {
+			if ef.Kind != "store" || ef.Addr.Op != "faddr" || len(ef.Addr.Args) == 0 || !params[ef.Addr.Args[0]] || ef.Act == nil {
+				continue
+			}
+			st, ok := ef.Ins.(*ssa.Store)
+			if !ok {
+				continue
+			}
+			if _, isSlice := st.Val.Type().Underlying().(*types.Slice); !isSlice {
+				continue
+			}
+			ems, _ := traceAppends(g, AV{ef.Act, st.Val})
+			for _, em := range ems {
+				if em.Call == nil {
+					continue
+				}
+				if seen[em.Call] == nil {
+					seen[em.Call] = map[*Summary]bool{}
+				}
+				if seen[em.Call][em.Act] {
+					continue
+				}
+				seen[em.Call][em.Act] = true
+				out = append(out, Emission{Call: em.Call, Elems: em.Elems, RC: em.RC})
+			}
+		}
+	}
 	return out
 }
 
